@@ -8,14 +8,15 @@ from harness.runner import BCheck
 from scenario import bam as BAM
 
 LEVEL = "exploration"
-LEVEL_TEXT = ("Bounded stand-in (deductive obligations for cigar_prefix_length / _iterate_cigar are planned, see DESIGN.md): the real ReadSetReader is run on generated "
+LEVEL_TEXT = ("Deductive part (vcgen/z3, all inputs): _iterate_cigar (_variants.pyx, read through Cython's parser): every tuple the lock-step walk yields is sound - the variant lies inside (M,=,X,D, at the reported offset) or at the insertion point of (I) the named CIGAR element, never inside a reference skip, clip or padding, and the reported query position is the read offset of that reference position; variant indices increase strictly. cigar_prefix_length: prefix sums, stops at N with the consumed length. "
+              "Bounded stand-in: the real ReadSetReader is run on generated "
               "BAMs whose reads are exact copies of one true haplotype (exact CIGARs with S/H clips, =/X, unrelated private indels >= 8 bp from any variant, "
               "reference skips next to and across variants, mate pairs); for every read and every variant its aligned blocks fully cover, the recorded allele "
               "must be the haplotype's allele (always found with a reference; never the other one without a reference for SNVs and unshiftable indels), and "
               "nothing may be recorded for variants outside the aligned blocks.")
 LEVEL_NOTE = "Seeded sampling. Trusted: scenario generator. 'Unshiftable' as defined in DESIGN.md (C06)."
 TECHNIQUE = "bounded runtime contract on ReadSetReader.read (re-alignment and CIGAR paths) over generated BAMs with known haplotype of origin per read"
-D_MODULES = ["contracts.variants_py"]
+D_MODULES = ["contracts.variants_py", "contracts.variants_pyx"]
 EXPLANATION = LEVEL_TEXT
 TRUSTED_BASE = ["scenario/bam.py"]
 ASSUMPTIONS = ["variants >= 12 bp apart, indels left-normalised; reads whose end falls inside a variant's REF span are not judged at that variant"]
